@@ -14,3 +14,5 @@ tlc -workers 1 -metadir "$OUT/states" -dump dot,actionlabels "$OUT/assoc.dot" -c
 grep -q "Model checking completed. No error has been found." "$OUT/tlc.log" || { cat "$OUT/tlc.log"; echo "TLC reported an error"; exit 1; }
 python3 "$ROOT/tla/graph2nfa.py" build "$OUT/assoc.dot" "$OUT/assoc.json" --conf FALSE --log "$OUT/tlc.log" --also TRUE "$OUT/assoc_scp.json"
 test -s "$OUT/assoc.json" && test -s "$OUT/assoc_scp.json"
+# part 4 drives the real storescp binary: build the tools from the working tree
+bash "$ROOT/pre/tools.sh"
